@@ -661,3 +661,73 @@ pub fn expr(depth: usize) -> Value {
     }
     done(tried)
 }
+
+// ------------------------------------------------------------------------------------------------ C03: DDL + DML histories with reopen
+#[derive(Clone, Copy, Debug, PartialEq)]
+enum D { Create(usize), Drop(usize), Ins(usize), Del(usize), Reopen }
+
+pub fn ddl(depth: usize) -> Value {
+    let mut tried = 0u64;
+    let ntab = 2usize;
+    let len = 4 + depth.min(2);
+    // enumerate valid histories (create only what does not exist, use only what exists), then sample
+    let mut seqs: Vec<Vec<D>> = vec![];
+    fn rec(cur: &mut Vec<D>, exists: &mut Vec<bool>, ins: &mut Vec<usize>, len: usize, ntab: usize, out: &mut Vec<Vec<D>>) {
+        if cur.len() == len { out.push(cur.clone()); return; }
+        for t in 0..ntab {
+            if !exists[t] { cur.push(D::Create(t)); exists[t] = true; let save = ins[t]; ins[t] = 0; rec(cur, exists, ins, len, ntab, out); ins[t] = save; exists[t] = false; cur.pop(); }
+            else {
+                cur.push(D::Drop(t)); exists[t] = false; rec(cur, exists, ins, len, ntab, out); exists[t] = true; cur.pop();
+                if ins[t] < 2 { cur.push(D::Ins(t)); ins[t] += 1; rec(cur, exists, ins, len, ntab, out); ins[t] -= 1; cur.pop(); }
+                if ins[t] > 0 { cur.push(D::Del(t)); rec(cur, exists, ins, len, ntab, out); cur.pop(); }
+            }
+        }
+        if !matches!(cur.last(), Some(D::Reopen) | None) { cur.push(D::Reopen); rec(cur, exists, ins, len, ntab, out); cur.pop(); }
+    }
+    rec(&mut vec![], &mut vec![false; ntab], &mut vec![0; ntab], len, ntab, &mut seqs);
+    // histories without a reopen say nothing about durability
+    let seqs: Vec<Vec<D>> = seqs.into_iter().filter(|s| s.contains(&D::Reopen)).collect();
+    let stride = (seqs.len() / match depth { 0 | 1 => 30, 2 => 200, _ => usize::MAX }).max(1);
+    let e = Engine::Disk { block: 64, rowset: 1 };
+    for (si, s) in seqs.iter().enumerate() {
+        if si % stride != 0 { continue; }
+        let mut sqls: Vec<String> = vec![];
+        let mut reopen = vec![];
+        let mut model: Vec<Option<Vec<(i64, i64)>>> = vec![None; ntab];
+        let mut next_batch = vec![0i64; ntab];
+        // (statement index, table, expected rows or None = table must not exist)
+        let mut checks: Vec<(usize, usize, Option<Vec<Vec<String>>>)> = vec![];
+        for op in s {
+            match op {
+                D::Create(t) => { sqls.push(format!("create table d{t}(k int primary key, v int)")); model[*t] = Some(vec![]); next_batch[*t] = 0; }
+                D::Drop(t) => { sqls.push(format!("drop table d{t}")); model[*t] = None; }
+                D::Ins(t) => {
+                    let b = next_batch[*t]; next_batch[*t] += 1;
+                    let rows: Vec<(i64, i64)> = (0..4).map(|i| (10 * b + i, i % 2)).collect();
+                    sqls.push(insert(&format!("d{t}"), &rows.iter().map(|(k, v)| vec![Some(*k), Some(*v)]).collect::<Vec<_>>()));
+                    model[*t].as_mut().unwrap().extend(rows);
+                }
+                D::Del(t) => { sqls.push(format!("delete from d{t} where v = 1")); model[*t].as_mut().unwrap().retain(|(_, v)| *v != 1); }
+                D::Reopen => { reopen.push(sqls.len()); }
+            }
+            for t in 0..ntab {
+                sqls.push(format!("select k, v from d{t}"));
+                checks.push((sqls.len() - 1, t, model[t].as_ref().map(|rows| sorted(rows.iter().map(|(k, v)| vec![k.to_string(), v.to_string()]).collect()))));
+            }
+        }
+        tried += sqls.len() as u64;
+        let outs = match run(e, &sqls, &reopen) { Ok(o) => o, Err(err) => return found_raw(tried, e, &sqls, &reopen, sqls.len() - 1, "the session (with its reopen steps) to run".into(), err) };
+        for (i, o) in outs.iter().enumerate() {
+            if sqls[i].starts_with("select") { continue; }
+            if let Err(err) = o { if let Some(v) = found(tried, e, &sqls, &reopen, i, "statement to succeed".into(), err.clone()) { return v; } }
+        }
+        for (idx, t, want) in &checks {
+            match (&outs[*idx], want) {
+                (Ok(got), Some(w)) if sorted(got.clone()) == *w => {}
+                (Err(_), None) => {}
+                (got, want) => { if let Some(v) = found(tried, e, &sqls, &reopen, *idx, match want { Some(w) => format!("table d{t} = {w:?}"), None => format!("an error: table d{t} does not exist") }, format!("{got:?}")) { return v; } }
+            }
+        }
+    }
+    done(tried)
+}
